@@ -15,6 +15,9 @@ def collect():
             continue
         mod = importlib.import_module('props.' + pid.lower())
         m = getattr(mod, 'MANIFEST', None)
+        if m and not os.path.exists(os.path.join(V, 'coq', 'props', pid + '.v')):
+            NA[pid] = 'theorem file coq/props/%s.v not written yet (model, oracle and harness exist); not claimed' % pid
+            continue
         if m and m.get('claimed', True):
             checks[pid] = m
         elif m:
